@@ -1006,6 +1006,15 @@ class Engine:
             return [(("app", "min", (args[0], args[1])), None)]
         if re.search(r"<impl char>::len_utf8$", nm):
             return [(("app", "len_utf8", (self.deref_val(path, args[0]),)), None)]
+        if re.search(r"<impl str>::split_at$|<impl \[.*\]>::split_at$", nm) and len(args) == 2:
+            # `s.split_at(k)` is `(&s[..k], &s[k..])`
+            base = args[0]
+            if base[0] == "ref":
+                l = base[1]
+                mk = lambda nm_: ("ref", ("loc", l[1], l[2] + (("i", ("adt", "std::ops::" + nm_, nm_, (args[1],))),)), False)
+            else:
+                mk = lambda nm_: ("ref", ("loc", ("deref", base), (("i", ("adt", "std::ops::" + nm_, nm_, (args[1],))),)), False)
+            return [(("tuple", (mk("RangeTo"), mk("RangeFrom"))), None)]
         if re.search(r"ops::Index<.*>>::index$|ops::IndexMut<.*>>::index_mut$", nm):
             base = args[0]
             mut = "IndexMut" in nm
